@@ -155,7 +155,7 @@ _fs_assume = ["go-ipld-prime's selector traversal defines 'a local selector trav
 
 prop("C02", level="exploration",
      stages=[
-         dict(pkg="fullstack", test="TestC02Pinned", sub="pinned", race=True, cases=dict(quick=6, thorough=6), batch=1, timeout=1200),
+         dict(pkg="fullstack", test="TestC02Pinned", sub="pinned", race=True, cases=dict(quick=3, thorough=3), batch=1, timeout=1200),
          dict(pkg="fullstack", test="TestC02", sub="random", race=True, vary_gomaxprocs=True,
               cases=dict(quick=600, thorough=10000), timeout=3600),
      ],
